@@ -389,6 +389,18 @@ void build_evil() {
         std::string body; body += '\x10'; pb::put_varint(body, ds.size()); body += ds;
         o5m(vh::fmt("tag key of %zu bytes", len), body);
     }
+    {   // bounding box datasets (0xdb) with swapped, undefined (INT32_MAX) and out-of-range corners
+        auto bbox = [&](const char* cls, int64_t a, int64_t b, int64_t c, int64_t d) {
+            std::string ds; for (int64_t v : {a, b, c, d}) pb::put_varint(ds, pb::zigzag(v));
+            std::string body; body += static_cast<char>(0xdb); pb::put_varint(body, ds.size()); body += ds;
+            body += LIT("\x10\x04\x02\x00\x02\x02");
+            o5m(cls, body);
+        };
+        bbox("bounding box with swapped corners", 100, 100, -100, -100);
+        bbox("bounding box with an undefined corner", 2147483647, 5, 1, 2147483647);
+        bbox("bounding box with undefined corner and wrong order", 5, 5, 2147483647, -7);
+        bbox("bounding box out of range", 3000000000LL, -3000000000LL, 9000000000LL, 1LL << 40);
+    }
     g_evil.push_back(Evil{"o5m", "o5m: header only / wrong magic", LIT("\xff\xe0\x04o5x2")});
     g_evil.push_back(Evil{"o5m", "o5m: header length mismatch", LIT("\xff\xe0\x7fo5m2")});
 }
